@@ -33,7 +33,7 @@ TInit == l = 1 /\ Init /\ OInit0
 
 Reset ==
   /\ buf' = [c \in Children |-> <<>>]
-  /\ closed' = [c \in Children |-> FALSE] /\ dead' = [c \in Children |-> FALSE]
+  /\ closed' = [c \in Children |-> FALSE] /\ dead' = [c \in Children |-> FALSE] /\ deaf' = [c \in Children |-> FALSE]
   /\ wire' = [c \in Children |-> <<>>]
   /\ nops' = 0 /\ lastOp' = "init" /\ res' = "ok"
   /\ cur' = <<>> /\ curBad' = FALSE /\ expect' = <<>> /\ refused' = {} /\ destFailed' = FALSE
@@ -88,10 +88,11 @@ TNext ==
      CASE r.e = "new" -> Reset
        [] r.e = "op" ->
             /\ CASE r.op \in Writes -> Write(r.op, r.id, r.size)
-                 [] r.op = "flush" -> Flush
+                 [] r.op = "flush" -> Flush(IF r.res = "senderr" THEN "senderr" ELSE "ok")
                  [] r.op = "discard" -> Discard
                  [] r.op = "close" -> Close
                  [] r.op = "die" -> SocketDies(r.c)
+                 [] r.op = "deafen" -> Deafen(r.c)
             /\ Observe(r)
             /\ Judge(r)
        [] r.e = "phase" ->
